@@ -323,4 +323,3 @@ func (it *stringIter) next() tuple {
 	it.i += n
 	return okv
 }
-
